@@ -47,6 +47,7 @@ const (
 	pRLock
 	pUnlock
 	pRUnlock
+	pAccess // fine-grained mode: before an access to a guarded field / a call on a tree object
 	pDone
 )
 
@@ -92,6 +93,7 @@ type Controller struct {
 	Pruned           bool   // given up by the explorer
 	Crash            string // unlock of an unlocked mutex, ...
 	WriterPreference bool
+	Fine             bool // accesses to guarded fields and calls on tree objects are scheduling points too
 }
 
 var ctl atomic.Pointer[Controller]
@@ -177,7 +179,7 @@ func (c *Controller) enabled(th *thread) bool {
 	switch th.pend.kind {
 	case pDone:
 		return false
-	case pStart, pUnlock, pRUnlock:
+	case pStart, pUnlock, pRUnlock, pAccess:
 		return true
 	case pLock:
 		l := &c.locks[th.pend.lock]
@@ -206,7 +208,7 @@ func (c *Controller) enabled(th *thread) bool {
 // apply the effect of the pending lock operation of th (it has been chosen) and log it
 func (c *Controller) apply(th *thread) {
 	p := th.pend
-	if p.kind == pStart {
+	if p.kind == pStart || p.kind == pAccess {
 		return
 	}
 
@@ -471,6 +473,15 @@ func (r *rlocker) Unlock() { (*RWMutex)(r).RUnlock() }
 
 // ---------------------------------------------------------------- probes (inserted by harness/tools/instr)
 
+// fine: in fine-grained mode the running goroutine parks before the assignment / method call it is about to log.
+// (A read is logged by Get AFTER it happened, so Get never parks: the read belongs to the step that precedes it and
+// the log stays in the order of the real accesses.)
+func (c *Controller) fine() {
+	if c.Fine {
+		c.park(c.running, pending{kind: pAccess})
+	}
+}
+
 // Get: the guarded field `field` has just been read and had value v.
 func Get[T any](field int, v T) T {
 	if c := active(); c != nil && !c.aborted {
@@ -480,9 +491,51 @@ func Get[T any](field int, v T) T {
 	return v
 }
 
+// GetP: the guarded field `field` (of a type that must not be copied) is about to be used through its address.
+func GetP[T any](field int, p *T) *T {
+	if c := active(); c != nil && !c.aborted {
+		c.log(Event{T: c.running.id, K: "get", A: field})
+	}
+
+	return p
+}
+
+// PutP: the value of the guarded field `field` has just been written through a selector / index expression.
+func PutP(field int) {
+	if c := active(); c != nil && !c.aborted {
+		c.log(Event{T: c.running.id, K: "put", A: field})
+	}
+}
+
+// ALoad: v has just been loaded from the atomic pointer field `field`; lock is the pseudo lock that stands for
+// the atomicity of this one access in the skeleton (held shared).
+func ALoad[T any](field, lock int, v T) T {
+	if c := active(); c != nil && !c.aborted {
+		t := c.running.id
+		c.log(Event{T: t, K: "rlock", A: lock})
+		c.log(Event{T: t, K: "get", A: field, O: c.obj(v)})
+		c.log(Event{T: t, K: "runlock", A: lock})
+	}
+
+	return v
+}
+
+// AStore: v is about to be stored into the atomic pointer field `field` (pseudo lock held exclusively).
+func AStore[T any](field, lock int, v T) T {
+	if c := active(); c != nil && !c.aborted {
+		t := c.running.id
+		c.log(Event{T: t, K: "lock", A: lock})
+		c.log(Event{T: t, K: "put", A: field, O: c.obj(v)})
+		c.log(Event{T: t, K: "unlock", A: lock})
+	}
+
+	return v
+}
+
 // Put: v is about to be assigned to the guarded field `field`.
 func Put[T any](field int, v T) T {
 	if c := active(); c != nil && !c.aborted {
+		c.fine()
 		c.log(Event{T: c.running.id, K: "put", A: field, O: c.obj(v)})
 	}
 
@@ -492,6 +545,7 @@ func Put[T any](field int, v T) T {
 // Obj: method `meth` is about to be called on the object x (of the type behind a guarded pointer field).
 func Obj[T any](x T, meth string) T {
 	if c := active(); c != nil && !c.aborted {
+		c.fine()
 		c.log(Event{T: c.running.id, K: "obj", O: c.obj(x), M: meth})
 	}
 
